@@ -169,6 +169,9 @@ class InlinePass(ir.passes.InPlacePass):
         for func_id, function in model.functions.items():
             if func_id in self._inlined_functions:
                 continue
+            # Nodes inlined into a function body are governed by the opset imports of that
+            # function, not by those of the model
+            self._opset_imports = function.opset_imports
             inner_id_count, inlined = self._inline_calls_in(function.graph)
             total_inlined += inlined
             for k, v in inner_id_count.items():
